@@ -1,9 +1,9 @@
-From RU Require Import Base BitReader Types Defs World Run WireSpec Container Version LibWrite Packaging.
+From RU Require Import Base BitReader Types Defs World Run WireSpec Container Version LibWrite Packaging Summary.
 Require Import ExtrOcamlBasic.
 Extraction Language OCaml.
 
 Extraction "model.ml" build_setup run_strict run_lenient table_wows table_wows126 table_wot table_wowp
   all_bytes b2n default_config decode trace_of clear_trace step frames empty_world
   bits_requiredN rd_init rd_gets rd_rest rd_bytes_read
-  wire_encode method_payload_rest prop_payload_rest class_of subscribe_all method_key read_container_real read_container_pg_real read_container_pg write_container real_cipher real_cipher_enc ext_of key_table norm_wows norm_wot norm_wowp select_version lib_write write_args zero_size_elems count_arrays shipped missing Z.add Z.mul Z.opp.
+  wire_encode method_payload_rest prop_payload_rest class_of subscribe_all method_key read_container_real read_container_pg_real read_container_pg write_container real_cipher real_cipher_enc ext_of key_table norm_wows norm_wot norm_wowp select_version lib_write write_args zero_size_elems count_arrays shipped missing run_events run_events_strict init_state summary Z.add Z.mul Z.opp.
 
